@@ -1,5 +1,6 @@
 (* KVM wire entry points: scanner / multi-index scanner on an explicit key list. *)
-From NR Require Import Lib.Base Lib.Wire KVM.Engine KVM.Keys KVM.Scan KVM.ScanSpec.
+From NR Require Import Lib.Base Lib.Wire Lib.Nip01 KVM.Engine KVM.Keys KVM.Scan KVM.ScanSpec
+  KVM.Coherent KVM.Plan KVM.Match KVM.Exec KVM.Spec.
 Open Scope string_scope. Open Scope list_scope. Open Scope Z_scope.
 
 Definition idx_of_name (s : pystr) : idx :=
@@ -42,6 +43,72 @@ Definition run_multi (v : jv) : jv :=
                     (as_arr (jfield "stages" v)) in
   jv_of_sres (multi_scanner ks stages (as_opt_int (jfield "since" v)) (as_opt_int (jfield "until" v)) None).
 
+(* ---- planner / answers / oracles ---- *)
+Definition name_of_idx (i : idx) : jv :=
+  match i with IxIds => jstr "ids" | IxCreated => jstr "created_at" | IxKinds => jstr "kinds"
+             | IxAuthors => jstr "authors" | IxAuthorKinds => jstr "authorkinds" | IxTags => jstr "tags" end.
+Definition jv_of_mval (m : mval) : jv :=
+  match m with MStr s => JStr s | MInt z => JInt z | MStrInt a z => JArr [JStr a; JInt z]
+             | MStrStr a b => JArr [JStr a; JStr b] end.
+Definition jv_of_qitem (q : qitem) : jv :=
+  match q with
+  | QSince z => JArr [jstr "since"; JInt z] | QUntil z => JArr [jstr "until"; JInt z]
+  | QIds l => JArr [jstr "ids"; jstrs l] | QKinds l => JArr [jstr "kinds"; jints l]
+  | QAuthors l => JArr [jstr "authors"; jstrs l] | QTag n vs => JArr [jstr "#"; JStr n; jstrs vs]
+  end.
+Definition jopt_int (o : option Z) : jv := match o with Some z => JInt z | None => JNull end.
+Definition jv_of_stage (s : idx * list mval) : jv :=
+  jobj [("index", name_of_idx (fst s)); ("matches", JArr (map jv_of_mval (snd s)))].
+Definition jv_of_plan (p : plan) : jv :=
+  jobj [("query", JArr (map jv_of_qitem (p_query p)));
+        ("index", match p_index p with
+                  | PSingle i ms => jv_of_stage (i, ms)
+                  | PMulti st => jobj [("multi", JArr (map jv_of_stage st))] end);
+        ("limit", jopt_int (p_limit p)); ("since", jopt_int (p_since p)); ("until", jopt_int (p_until p))].
+Definition filters_of (v : jv) : list filter := map filter_of_jv (as_arr (jfield "filters" v)).
+Definition run_plan (v : jv) : jv :=
+  JArr (map jv_of_plan (planner (as_opt_int (jfield "default_limit" v)) (as_opt_int (jfield "max_limit" v)) (filters_of v))).
+
+(* db: [[key, null | event], ...] in key order *)
+Definition kvdb_of_jv (v : jv) : kvdb :=
+  map (fun kv => (as_str (nth 0 (as_arr kv) JNull),
+                  match nth 1 (as_arr kv) JNull with JObj o => REvent (wevent_of_jv (JObj o)) | _ => RIndex end))
+      (as_arr v).
+Definition is_multi (p : plan) : bool := match p_index p with PMulti _ => true | _ => false end.
+Definition run_answer (v : jv) : jv :=
+  let d := kvdb_of_jv (jfield "db" v) in
+  let plans := planner (as_opt_int (jfield "default_limit" v)) (as_opt_int (jfield "max_limit" v)) (filters_of v) in
+  JArr (map (fun p => jobj [("ids", jstrs (map w_id (execute_one_plan d p))); ("multi", JBool (is_multi p));
+                            ("scan", match scan_plan (keys d) p with SOk _ => jstr "ok" | SRaise => jstr "raise" | SFuel => jstr "fuel" end)])
+            plans).
+
+(* oracles on the implementation's observations: {stored, filter, answer, max_limit} *)
+Definition events_of (v : jv) : list wevent := map wevent_of_jv (as_arr v).
+Definition run_oracle (v : jv) : jv :=
+  let stored := events_of (jfield "stored" v) in
+  let f := filter_of_jv (jfield "filter" v) in
+  let ans := events_of (jfield "answer" v) in
+  let mx := as_int (jfield "max_limit" v) in
+  jobj [("c01", JBool (holds_C01 stored f ans)); ("c02", JBool (holds_C02 mx stored f ans));
+        ("c12", JBool (holds_C12 mx stored f ans));
+        ("under_limit", JBool (under_limit mx stored f));
+        ("n_may", JInt (count_b (may_match f) stored)); ("n_must", JInt (count_b (must_match f) stored));
+        ("range_scan_refused", JBool (range_scan_refused f)); ("multi_match", JBool (multi_match_filter f));
+        ("delegator_only", JBool (existsb (fun e => delegator_only_match f e && must_match f e &&
+                                                   Nat.eqb (count_id e ans) 0) stored))].
+(* C11: relations between answers, as id lists: {a, b} *)
+Definition run_rel (v : jv) : jv :=
+  let a := map as_str (as_arr (jfield "a" v)) in
+  let b := map as_str (as_arr (jfield "b" v)) in
+  jobj [("same", JBool (same_ids a b)); ("subset", JBool (subset_ids a b))].
+Definition run_match (v : jv) : jv :=
+  let f := filter_of_jv (jfield "filter" v) in
+  let e := wevent_of_jv (jfield "event" v) in
+  jobj [("must", JBool (must_match f e)); ("may", JBool (may_match f e));
+        ("residual", match plan_one None None f with Some p => JBool (residual (p_query p) e) | None => JNull end)].
+
 Definition suites : list (string * (jv -> jv)) :=
-  [("kvm.scan", run_scan); ("kvm.scanspec", run_scanspec); ("kvm.multi", run_multi)].
+  [("kvm.scan", run_scan); ("kvm.scanspec", run_scanspec); ("kvm.multi", run_multi);
+   ("kvm.plan", run_plan); ("kvm.answer", run_answer); ("kvm.oracle", run_oracle);
+   ("kvm.rel", run_rel); ("kvm.match", run_match)].
 Definition dispatch := dispatch_in suites.
